@@ -8,10 +8,28 @@ VERIF = gen.VERIF
 ASSUME = {
     "_all": [
         "Verus/Z3/rustc are trusted; vstd's specifications of std (Vec, slice, Option, String, iterators) are trusted",
-        "extraction: /verif/vx copies item text verbatim by byte span and applies only the logged rewrite rules R1..R14 (DESIGN.md §4); the rules themselves are trusted to preserve meaning",
+        "extraction: /verif/vx copies item text verbatim by byte span and applies only the logged rewrite rules R1..R27 (DESIGN.md §12.2); the rules themselves are trusted to preserve meaning",
         "A-SIZE: DigitString size counters stay below 2^61 (ds_size_axiom); arguments `positions`/`position` are below 2^28 (preconditions)",
         "memory allocation never fails",
     ],
+    "C01": ["composition (the words of spell(n) executed in order give decimal(n)) is NOT proved; the thorough tier gives bounded evidence only (tools/spell.py)",
+            "WordSplitter (daachorse) contract assumed; Italian/German/Dutch values assumed to come from Default::default"],
+    "C02": ["whole-stream losslessness of tokenize is assumed inside unit scan (proved per token in unit tok); Vec::drain/insert and [T]::join have assumed contracts"],
+    "C03": ["partial correctness: termination of iterator-driven loops and of the apply<->exec_group recursion is not proved"],
+    "C04": ["multi-word and glued ordinals: composition not proved (bounded ordinal search in the thorough tier)"],
+    "C05": ["f64 value = parse_f64(text), uninterpreted; whole-phrase decimal round trip not proved (bounded decimal search in the thorough tier)"],
+    "C06": ["f64 value = parse_f64(text), uninterpreted"],
+    "C07": ["the two-run statement validator(span) = occurrence is not proved; the refusing direction of exec_group is not specified"],
+    "C08": ["the pair statement over [0,99]^2 is not a theorem here; the thorough tier sweeps that finite space exhaustively on the real crate (bounded stand-in)"],
+    "C09": ["f64 `<` is an assumed helper (f64_lt uninterpreted); monotonicity across two thresholds is a two-run statement, not proved"],
+    "C10": ["rewrite(A S B) = rewrite(A) S rewrite(B) is a two-run statement, not proved; the single-run reset / locality contracts are"],
+    "C11": ["the two-run statement is not proved; str::to_lowercase is an uninterpreted spec function"],
+    "C13": ["the seven interpreters are contract-only stubs in unit fac (proved in their own units)"],
+    "C14": ["no concurrency semantics in the verifier: Send + Sync by rustc's auto traits; history independence follows from the syntactic frame scan only on paper"],
+    "C15": ["iter(stream) = batch(stream) is a two-run statement, not proved; the default bodies of the Token trait's hint methods are not verified"],
+    "C16": ["the k-zeros + spell(n) sweep is not a theorem here (bounded zero-prefix search in the thorough tier)"],
+    "C17": ["the two-run statement is not proved; char classes (is_alphanumeric, is_alphabetic, is_whitespace) are uninterpreted"],
+    "C18": ["neighbours containing '-' go through the hoisted (assumed) hyphen path of apply"],
 }
 
 
